@@ -107,7 +107,8 @@ func (rc *RangeCache) DeleteOldEntries(ctx context.Context, maxAge time.Duration
 func (rc *RangeCache) SetRange(ctx context.Context, start, ln int64, value []byte) error {
 	rc.mu.Lock()
 	defer rc.mu.Unlock()
-	return rc.setRange(ctx, start, ln, value)
+	// keep a copy: the caller may reuse its buffer after the call
+	return rc.setRange(ctx, start, ln, append([]byte(nil), value...))
 }
 
 func (rc *RangeCache) setRange(ctx context.Context, start, ln int64, value []byte) error {
